@@ -134,10 +134,16 @@ func guarded(f func()) (finished bool) {
 		}
 
 		return true
-	case <-time.After(20 * time.Second):
+	case <-time.After(15 * time.Second):
+		hangSeen = true
+
 		return false
 	}
 }
+
+// hangSeen: a re-entrant callback hung once; the probe is not repeated (every repetition would cost
+// the whole watchdog time again).
+var hangSeen bool
 
 func (w *shrinkW) exec(r *hx.Run, f []string) (string, string) {
 	line := strings.Join(f, " ")
@@ -397,6 +403,9 @@ func (w *shrinkW) exec(r *hx.Run, f []string) (string, string) {
 	case "foreachdel", "foreachkeydel":
 		// the first callback deletes every key (the iteration runs over a snapshot taken under the lock, so
 		// every key of the snapshot is still visited); re-entering the map from the callback is legal
+		if hangSeen {
+			return line, "skipped-after-hang"
+		}
 		snapshot := map[int]int{}
 		var order []int
 		for k, v := range w.ref {
@@ -428,7 +437,7 @@ func (w *shrinkW) exec(r *hx.Run, f []string) (string, string) {
 		})
 		if !finished {
 			w.dead = true
-			fail(r, "shrink", f[0], "hang", fmt.Sprintf("%s: deleting from inside the callback did not return within 20 s (model %v)", line, w.ref))
+			fail(r, "shrink", f[0], "hang", fmt.Sprintf("%s: deleting from inside the callback did not return within 15 s (model %v)", line, w.ref))
 
 			return line, "hang"
 		}
